@@ -847,12 +847,14 @@ func (c10Stream) Impl(c Case) string {
 		close(stopRet)
 	}
 	got := 0
+	endedByReset := false
 	for verdict == "ok" {
 		f, err := cl.readFrame(10 * time.Second)
 		if err != nil {
 			if !strings.Contains(err.Error(), "EOF") && !strings.Contains(err.Error(), "reset") && !strings.Contains(err.Error(), "closed") {
 				verdict = "connection not closed after unbind: " + err.Error()
 			}
+			endedByReset = strings.Contains(err.Error(), "reset")
 			break
 		}
 		v := strictView(f)
@@ -865,7 +867,10 @@ func (c10Stream) Impl(c Case) string {
 		}
 		got++
 	}
-	if verdict == "ok" && got != pre {
+	// (the client sent requests BEHIND its Unbind, which the server rightly never reads: closing a socket with unread
+	// input makes TCP send a reset, and a reset may destroy responses the client has not read yet - that loss is the
+	// client's own doing, so after a reset only a surplus of responses counts)
+	if verdict == "ok" && got != pre && !(endedByReset && post > 0 && got < pre) {
 		verdict = fmt.Sprintf("%d responses for %d requests before the unbind", got, pre)
 	}
 	if verdict == "ok" {
